@@ -2,6 +2,7 @@ package props
 
 import (
 	"bytes"
+	"context"
 	"encoding/binary"
 	"fmt"
 	"math/rand"
@@ -10,6 +11,7 @@ import (
 	"github.com/0chain/common/core/util"
 	"github.com/0chain/common/core/util/wmpt"
 	"github.com/fxamacker/cbor/v2"
+	"github.com/linxGnu/grocksdb"
 
 	"verif/harness/internal/fw"
 	lab "verif/harness/internal/mptlab"
@@ -23,9 +25,10 @@ const (
 	tDeserializeNode
 	tDeserializeTrie
 	tVerifyProof
+	tDeadNodes
 )
 
-var c15targets = []string{"util.CreateNode", "wmpt.DeserializeNode", "WeightedMerkleTrie.Deserialize", "WeightedMerkleTrie.VerifyBlockProof"}
+var c15targets = []string{"util.CreateNode", "wmpt.DeserializeNode", "WeightedMerkleTrie.Deserialize", "WeightedMerkleTrie.VerifyBlockProof", "PNodeDB.PruneBelowVersion(dead-node record)"}
 
 type c15run struct {
 	c      *fw.Ctx
@@ -95,6 +98,23 @@ func (r *c15run) feed(mut string, in []byte) {
 		_ = t.Root()
 		_ = t.Weight()
 		_, _ = t.GetPath(nil)
+	case tDeadNodes:
+		// the bytes are planted as the dead-node record of version 1 and decoded by the pruner (its iterator runs in a
+		// goroutine of its own: a panic there kills the worker and is reported by the driver with this input)
+		disk := fmt.Sprintf("/verif-stub/C15/%d/%d", c.Seed, c.Idx)
+		p, err := util.NewPNodeDB(disk, "")
+		if err != nil {
+			panic(err)
+		}
+		grocksdb.Control(disk).PutRaw("dead_nodes", []byte{0, 0, 0, 0, 0, 0, 0, 1}, in)
+		perr := p.PruneBelowVersion(context.Background(), 5)
+		p.Close()
+		grocksdb.DropDisk(disk)
+		if perr != nil {
+			c.Count("rejected", 1)
+		} else {
+			c.Count("accepted", 1)
+		}
 	case tVerifyProof:
 		t := wmpt.New(nil, nil)
 		_, _, err := t.VerifyBlockProof(r.block, in)
@@ -257,7 +277,7 @@ func (r *c15run) byteMutations(base []byte, rnd *rand.Rand, exhaustive bool) {
 func runC15(c *fw.Ctx) {
 	r := c.Rng
 	cp := harvest(r)
-	target := c.Idx % 4
+	target := c.Idx % 5
 	run := &c15run{c: c, target: target, block: 1}
 	exhaustive := true
 	switch target {
@@ -328,6 +348,38 @@ func runC15(c *fw.Ctx) {
 		for _, raw := range []string{"\xa1\x0a\xf6", "\xa1\x0b\xf6", "\xa1\x0c\xf6", "\xa1\x0d\xf6", "\xa1\x0e\xf6", "\xa0", "\xa1\x0a\x80", "\xa1\x0a\x82\x40\x81\xf6", "\xa1\x0c\x83\x40\x40\xf6", "\xa1\x0b\x83\xf6\xf6\x00",
 			"\xa2\x0a\x82\x40\x80\x0c\x83\x40\x40\x40", "\xa1\x0a\x82\x40\x91" + "\x40\x40\x40\x40\x40\x40\x40\x40\x40\x40\x40\x40\x40\x40\x40\x40\x40"} {
 			run.feed("crafted cbor", []byte(raw))
+		}
+	case tDeadNodes:
+		// a real record written by RecordDeadNodes, then mutated
+		disk := fmt.Sprintf("/verif-stub/C15/%d/%d/base", c.Seed, c.Idx)
+		p, err := util.NewPNodeDB(disk, "")
+		if err != nil {
+			panic(err)
+		}
+		var dead []util.Node
+		for i, enc := range cp.mptNodes {
+			if n, nerr := util.CreateNode(bytes.NewReader(enc)); nerr == nil && i%2 == 0 {
+				dead = append(dead, n)
+			}
+		}
+		_ = p.RecordDeadNodes(dead, 1)
+		p.Close()
+		var base []byte
+		for _, v := range grocksdb.Control(disk).Snapshot()["dead_nodes"] {
+			base = v
+		}
+		grocksdb.DropDisk(disk)
+		run.byteMutations(base, r, exhaustive)
+		for k := 0; k < 300; k++ {
+			b := make([]byte, r.Intn(60))
+			r.Read(b)
+			run.feed("random bytes", b)
+			o := append([]byte(nil), base...)
+			if len(o) > 4 {
+				i := r.Intn(len(o) - 2)
+				copy(o[i:], []byte{0xde, 0xff, 0xff}) // msgp map32 / huge length markers
+				run.feed("msgp length inflated", o)
+			}
 		}
 	case tDeserializeTrie, tVerifyProof:
 		bases := cp.exports
@@ -422,19 +474,19 @@ func init() {
 	fw.Register(&fw.Prop{
 		ID:    "C15",
 		Level: "exploration",
-		Rule: "each case harvests real encodings at run time (state-trie nodes of a generated trie incl. a value node; weighted-trie nodes from a committed store, hash and nil nodes; GetPath exports for 0/1/3/12 keys; block proofs) and feeds one of the four decoders (case index mod 4) with derived inputs: " +
+		Rule: "each case harvests real encodings at run time (state-trie nodes of a generated trie incl. a value node; weighted-trie nodes from a committed store, hash and nil nodes; GetPath exports for 0/1/3/12 keys; block proofs) and feeds one of five decoding entry points (case index mod 5; the fifth plants the bytes as a persisted dead-node record and runs the pruner over it) with derived inputs: " +
 			"every truncation length (exhaustive for bases <= 512 bytes), every value 0..255 of the first byte, removal of each ':' separator, bit flips, byte inserts/deletes, CBOR head inflation to 1/2/4/8-byte lengths, field splicing between encodings, every type byte x crafted bodies (one separator, 15/16/17 separators, child hex of length 63/65/66, non-hex), " +
 			"branch child hex strings of every length 0..140, CBOR child/value/hash blobs of every length 0..80, branch arrays of 0..20 children, nil / empty / dropped / duplicated / foreign elements in exports and proofs, hand-crafted CBOR (nil in place of structs, wrong arities, indefinite lengths), random bytes. " +
 			"The input is written to disk before each call; a recovered panic, a fatal exit or a call that does not return for 60 s is a violation; accepted inputs are re-encoded (Encode/GetHashBytes/CloneNode; Serialize/Copy; Root/GetPath). distinct non-trivial = (case, target) pairs; inputs are counted per mutator",
 		Cases: func(tier string) int {
 			if tier == "thorough" {
-				return 12800
+				return 16000
 			}
-			return 480
+			return 600
 		},
 		Run:          runC15,
 		StallSeconds: 60,
-		Floors: map[string]int64{"inputs": 1000000, "accepted": 20000, "rejected": 500000, "inputs:util.CreateNode": 100000, "inputs:wmpt.DeserializeNode": 100000, "inputs:WeightedMerkleTrie.Deserialize": 100000, "inputs:WeightedMerkleTrie.VerifyBlockProof": 100000,
+		Floors: map[string]int64{"inputs": 1000000, "accepted": 20000, "rejected": 500000, "inputs:util.CreateNode": 100000, "inputs:wmpt.DeserializeNode": 100000, "inputs:WeightedMerkleTrie.Deserialize": 100000, "inputs:WeightedMerkleTrie.VerifyBlockProof": 100000, "inputs:PNodeDB.PruneBelowVersion(dead-node record)": 30000,
 			"mutator:truncation": 50000, "mutator:separator removed": 5000, "mutator:first byte 0..255": 100000, "mutator:cbor head inflated": 10000, "mutator:branch child blob of length 0..80": 1000, "mutator:branch array of 0..20 children": 1000, "mutator:nil element": 1000},
 		Assumptions: []string{"inputs are near-valid derivations of real encodings plus random strings, at most 64 KiB; not all byte strings"},
 	})
